@@ -359,6 +359,14 @@ def oracle(case, sc, o):
             dev.append(('crash:VisitDisequality-constant-eq', 'crash (%s) in ProblemFlattener::VisitDisequality: a disequality whose sides differ by a constant '
                         '(x != x, y != c with c outside y\'s domain) folds to a constant and eq.get_representing_variable() indexes an empty vector' % d))
             return dev
+        if o['kind'] == 'crash' and o.get('frame') == 'name' and sc.get('names_first_empty'):
+            dev.append(('crash:NameProvider-empty-first-line', 'crash (%s) in NameProvider::name: the first line of the .col/.row file is empty and *(pos1past-1) reads '
+                        'one byte before the file mapping (layout dependent)' % d))
+            return dev
+        if o['kind'] == 'crash' and o.get('frame') in ('Visit', 'ConvertLogicalCon', 'Convert2Var') and sc.get('undefined_lcons'):
+            dev.append(('crash:undefined-logical-constraint', 'crash (%s): the NL header declares logical constraints for which the file has no L segment; '
+                        'the flattener visits the null expression' % d))
+            return dev
         if (o['kind'] == 'hang' or d in ('rss-limit', 'signal9') or d.startswith('sanitizer:allocat') or d.startswith('sanitizer:out-of-memory')) \
                 and sc.get('hdr_inconsistent'):
             dev.append(('resource:inconsistent-header-counts', 'NL header with inconsistent counts makes the driver allocate without bound (%s)' % d))
@@ -613,7 +621,7 @@ class CaseGen:
             c['answer'] = (code, False, False)
             c['inject'] = ('solve', {1: 'stdExn', 2: 'withCode', 3: 'unsupported'}[t], code if t == 2 else None)
         else:
-            site = r.choice(SITES)
+            site = r.choice([x for x in SITES if x != 'suffixes'])   # (reached only if the standard suffixes did not throw: corpus only)
             kind = r.choice(KINDS)
             code = r.choice([0, 1, 99, 100, 150, 200, 250, 299, 300, 499, 500, 512, 567, 999, 1000, 256, 768, -1, -7, 65536]) if kind == 'withCode' else None
             c['env']['RECSOLVER_FAULT'] = '%s:%s' % (site, kind) + (':%d' % code if code is not None else '')
@@ -623,7 +631,7 @@ class CaseGen:
     def add_answer(self, c):
         """arbitrary solve codes from the scripted solver (no vectors: sizes of the solver-side model are not known here)"""
         r = self.r
-        if c.get('script') is None and r.chance(1, 2):
+        if c.get('script') is None and r.chance(1, 2) and not (c.get('inject') and c['inject'][0] == 'suffixes'):
             code = r.choice([0, 0, 1, 2, 99, 100, 101, 150, 199, 200, 201, 299, 300, 349, 350, 399, 400, 449, 450, 499, 500, 501, 550, 600, 999,
                              1000, 5000, -1, -200, r.rint(0, 999)])
             c['script'] = 'code %d\nmsg scripted answer\n' % code
@@ -918,6 +926,9 @@ def run(ck):
         hd = c.get('header')
         dims = (hd[0], hd[1]) if hd else (0, 0)
         ans = c.get('answer', (0, True, True))
+        if c.get('script') is None and o['kind'] == 'sol' and o.get('complete'):
+            # which vectors the (unscripted) solver stub returns after postsolve is part of the solver's answer, not of the driver logic
+            ans = (ans[0], o['nprimals'] > 0, o['nduals'] > 0)
         partial = (o['ncons'], o['nvars']) if (fault and fault[0] == 'populate' and o['kind'] == 'sol' and o.get('complete')) else (0, 0)
         lines.append(scenario_line(c, fault, dims, ans, partial))
         evals.append((o, fault, inferred))
@@ -958,7 +969,9 @@ def run(ck):
         corr_bad = (ml == 'bad-op' or obs_s != mod_s)
         # (b) the property itself on what the implementation did
         sc = {'ending': ending, 'dims': (hd[0], hd[1]) if hd else None, 'outpath': c.get('outpath', 'ok'),
-              'answer': c.get('answer', (0, True, True)), 'hdr_inconsistent': c09gen.header_inconsistent(c['nl']) if c.get('nl') else False}
+              'answer': c.get('answer', (0, True, True)), 'hdr_inconsistent': c09gen.header_inconsistent(c['nl']) if c.get('nl') else False,
+              'undefined_lcons': c09gen.undefined_logical_cons(c['nl']) if c.get('nl') else False,
+              'names_first_empty': any((c.get(e) or 'x').startswith(('\n', '\r')) for e in ('col', 'row'))}
         devs = oracle(c, sc, o)
         latent = c.get('synthetic') and c.get('inject') and (
             (c['inject'][1] == 'foreign') or (c['inject'][0] == 'ctor'))
